@@ -109,7 +109,12 @@ def gen_case(rng, tier, params=None):
         wl = {"kind": "graph", "family": fam,
               "blocks": graphgen.gen_graph(rng.fork("graph"), fam, n, style)}
     faults = cfg.chance(0.7)
-    if focus == "C14":
+    if focus == "C04":
+        # the stage pipeline with name requests interleaved and path probes:
+        # no edits, no restarts (every hierarchy reached is a pure stage prefix)
+        weights = {"stage": 4, "edit": 0, "name": 4, "restart": 0, "restart2": 0, "probe": 3}
+        faults = False
+    elif focus == "C14":
         weights = {"stage": 2, "edit": 6, "name": 1, "restart": 1.0, "restart2": 0.3, "probe": 1.5}
     elif focus == "C15":
         weights = {"stage": 3, "edit": 1.5, "name": 0.5, "restart": 4, "restart2": 1.5, "probe": 0.3}
@@ -125,7 +130,8 @@ def gen_case(rng, tier, params=None):
         "allow_multi_S_plain": cfg.chance(0.25),
         "edit_kinds": {"insert": 4, "control": 3 if cfg.chance(0.8) else 0,
                        "join_returns": 1, "jte": 2 if cfg.chance(0.7) else 0},
-        "pre_stages": cfg.weighted([(0, 3), (1, 1), (2, 3), (3, 2)]) if focus == "C14" else cfg.weighted([(0, 5), (1, 1), (2, 1), (3, 1)]),
+        "pre_stages": (cfg.weighted([(0, 3), (1, 1), (2, 3), (3, 2)]) if focus == "C14"
+                       else 0 if focus == "C04" else cfg.weighted([(0, 5), (1, 1), (2, 1), (3, 1)])),
         "literal_names": cfg.chance(0.4),
         "allow_be_in_S": cfg.chance(0.15),
         "style": style,
@@ -498,7 +504,14 @@ def do_probe(w, op, conf):
         w.stats["probe_steps"] += stats["w1_steps"]
         for v in viols:
             if w.stats["edits"] == 0 and not w.after_restart:
-                continue  # nothing edited: C01/C04/C06 territory, decided by COSIM
+                # nothing edited, nothing re-read: a pure stage prefix (with name
+                # requests interleaved) -- C01/C04/C06 themselves
+                w.viol(v.prop, v.cls, "after=%s:interleaved-names" % STAGES[w.stage], v.where, v.detail,
+                       {"decisions": decisions, "stage": w.stage})
+                if v.prop != "C01":
+                    w.viol("C01", "walk-aborted(%s)" % v.cls, "after=%s:interleaved-names" % STAGES[w.stage],
+                           v.where, v.detail, {"decisions": decisions, "stage": w.stage})
+                continue
             prop = "C14" if not w.after_restart else "C15"
             w.viol(prop, "path-changed(%s)" % v.cls,
                    "after=edits" if prop == "C14" else "after=restart", v.where, v.detail,
